@@ -59,8 +59,8 @@ def normalize(raw_files, out_path):
                     twin.append({"cls": "ok" if cls in ("ok", "value") else cls,
                                  "msg": t["r"].get("msg", ""), "lines": t["lines"], "op": t["op"]})
                 dh, dt = raw.get("dumpH", {}), raw.get("dumpT", {})
-                ev = {"ev": "http", "run": raw["run"], "i": raw["i"], "alive": raw["alive"],
-                      "body": raw["body"], "entries": entries, "twin": twin,
+                ev = {"ev": raw["ev"], "run": raw["run"], "i": raw["i"], "alive": raw["alive"],
+                      "body": raw["body"], "entries": entries, "twin": twin, "frames": raw.get("frames", []),
                       "keysH": dh.get("keys", {}), "keysT": dt.get("keys", {}),
                       "connsH": dh.get("conns", -1), "connsT": dt.get("conns", -2),
                       "watchersH": sum(dh.get("watchers", {}).values())}
@@ -93,6 +93,14 @@ def run(tier, seed):
                 cmds = [c for c in cmds if c != "use_ok"] or ["get"]
             bodies.append((cmds, rnd.randint(0, 3)))
         cases.append(make_case("r%d" % i, bodies))
+    # the same command lists as one WebSocket text frame each (no blank statements: the WebSocket server
+    # does not skip them): the replies come back as a stream of frames
+    n_http = len(cases)
+    ws_src = cases if tier != "quick" else rnd.sample(cases[:len(hists)], min(len(hists), 400)) + cases[len(hists):len(hists) + 60]
+    for c in ws_src:
+        w = {"id": "ws_" + c["id"], "steps": c["steps"], "transport": "ws",
+             "bodies": [{"body": ";".join(x["line"] for x in b["cmds"]), "cmds": b["cmds"]} for b in c["bodies"]]}
+        cases.append(w)
     by_id = {c["id"]: c for c in cases}
     raws = common.run_cases_parallel("http", cases, wd, procs=8)
     norm_path = os.path.join(wd, "norm.ndjson")
@@ -103,7 +111,8 @@ def run(tier, seed):
         "states": distinct, "transitions": gen, "model": "MC_Http.tla/" + cfg,
         "traces_validated_against_impl": outv["runs"], "events_validated": outv["events"],
         "model_generated_cases": len(hists), "random_cases": len(cases) - len(hists),
-        "samples": [cases[len(hists) // 2]["bodies"][0]["body"], cases[-1]["bodies"][0]["body"]],
+        "samples": [cases[len(hists) // 2]["bodies"][0]["body"], cases[n_http - 1]["bodies"][0]["body"]],
+        "websocket_frames": len(cases) - n_http,
         "exhaustive": True,
         "rule": "MC_Http: every (session state, queue residue, last command) x next command for bodies "
                 "of up to MaxLen commands of the property's classes, with four separator layouts "
